@@ -697,7 +697,7 @@ public:
 			return true;
 		}
 		_ref.set_instance(c);
-		return true;
+		return false;
 	}
 	bool resize(long len)
 	{
